@@ -306,6 +306,8 @@ def _mechanisms(ctx, ea, residues: Dict[str, Any]) -> List[Ob]:
                 if isinstance(n, ast.Compare) and norm(n.left) == "len(self.call_stack)" and isinstance(n.ops[0], ast.Lt) and norm(n.comparators[0]) == saved and n.lineno > loop.lineno:
                     after = True
             key = f"{f.qual}:unwound-below"
+            if not after:
+                after = _boundary_protocol(ctx, f, loop, saved)
             if after:
                 out.append(Ob("O9", key, True, "", f.loc))
             else:
@@ -386,6 +388,47 @@ def _ctx_kinds(ea, residues) -> Dict[str, Any]:
                 r = res.c if hasattr(res, "c") and res.is_const() else (0 if res is None else None)
                 kinds[name] = dict(is_loop=c.is_loop, labelled=c.labelled, residue=r)
     return kinds
+
+
+def _boundary_protocol(ctx, f, loop, saved: str) -> bool:
+    """The other sound shape: the nested loop publishes its boundary (`self.D.append(saved)` paired with a pop in
+    `finally` around the loop) and the thrower refuses to unwind below it: before it removes a handler record it
+    compares the record's frame index with `self.D[-1]` (strictly below) and raises an unwinding signal instead."""
+    D = None
+    for n in f.own_nodes():
+        if isinstance(n, ast.Call) and isinstance(n.func, ast.Attribute) and n.func.attr == "append" and norm(n.func.value).startswith("self.") and len(n.args) == 1 and norm(n.args[0]) == saved and n.lineno < loop.lineno:
+            D = norm(n.func.value)
+    if D is None:
+        return False
+    # pop in a finally that encloses the loop
+    enclosed = False
+    p = getattr(loop, "_parent", None)
+    while p is not None and p is not f.node:
+        if isinstance(p, ast.Try) and any(f"{D}.pop()" in norm(x) for x in p.finalbody):
+            enclosed = True
+        p = getattr(p, "_parent", None)
+    if not enclosed:
+        return False
+    # the thrower: the method that pops handler records and truncates the call stack
+    throwers = []
+    for m in f.cls.all_methods:
+        txt = [norm(x) for x in m.own_nodes() if isinstance(x, ast.Call)]
+        if "self.exception_handlers.pop()" in txt and "self.call_stack.pop()" in txt and any(isinstance(x, ast.Raise) for x in m.own_nodes()):
+            if any(isinstance(x, ast.Assign) and "catch_ip" in norm(x) for x in m.own_nodes()):
+                throwers.append(m)
+    if len(throwers) != 1:
+        return False
+    th = throwers[0]
+    pop_line = min(x.lineno for x in th.own_nodes() if isinstance(x, ast.Call) and norm(x) == "self.exception_handlers.pop()")
+    for n in th.own_nodes():
+        if isinstance(n, ast.If) and n.lineno < pop_line and any(isinstance(x, ast.Raise) for x in n.body):
+            for c in ast.walk(n.test):
+                if isinstance(c, ast.Compare) and len(c.ops) == 1:
+                    l, r = norm(c.left), norm(c.comparators[0])
+                    hf, bd = "self.exception_handlers[-1][0]", f"{D}[-1]"
+                    if (isinstance(c.ops[0], ast.Lt) and l == hf and r == bd) or (isinstance(c.ops[0], ast.Gt) and l == bd and r == hf):
+                        return True
+    return False
 
 
 def _crossing_obligations(ea, residues) -> List[Ob]:
